@@ -7,8 +7,9 @@ import tempfile
 from lib.core import *
 
 ID = "C11"
-PROPS_FILES = ["Gama/Props/C11.lean", "Gama/Props/C11Lang.lean", "Gama/Props/C11Values.lean", "Gama/Props/C11Valid.lean"]
-LEAN_TARGETS = ["Gama.Props.C11", "Gama.Props.C11Lang", "Gama.Props.C11Values", "Gama.Props.C11Valid"]
+PROPS_FILES = ["Gama/Props/C11.lean", "Gama/Props/C11Lang.lean", "Gama/Props/C11Values.lean", "Gama/Props/C11Valid.lean",
+               "Gama/Props/C11Refuse.lean"]
+LEAN_TARGETS = ["Gama.Props.C11", "Gama.Props.C11Lang", "Gama.Props.C11Values", "Gama.Props.C11Valid", "Gama.Props.C11Refuse"]
 DRIVERS = ["drv_gkf"]
 
 LEVEL_TEXT = (
@@ -48,6 +49,14 @@ LEVEL_TEXT = (
     "requiredPairs / crossRules / effects / finishSpec tables in BOTH directions by decide, which also gives the refusal half (an element "
     "breaking a documented rule is refused at its start tag, a dim mismatch at the cluster's closing tag); oracle on the implementation: "
     "155 documents breaking exactly one documented rule must be refused naming that line.  "
+    "Round 9: the refusal half at document level: Doc'.firstBad (Model/GkfDocRefuse.lean) = the first violating element of the tree, and for "
+    "every document in the documented vocabulary (Doc'.inVocab: documented attribute names, the 7 attributes on which the code's check differs "
+    "from the documented one - computed from the regenerated table, C11_loose_attributes - hold documented values, no empty "
+    "<height-differences/>) the first error the parser records IS firstBad (C11_first_error_is_first_violation), firstBad = none <=> valid with "
+    "documented values, hence accepted <=> valid (C11_document_accepted_iff) and invalid => refused at the first violating element "
+    "(C11_invalid_document_refused_located; valid except dim => the cluster's closing tag, C11_dim_mismatch_document_located); blank character "
+    "data between elements changes neither state, error kind nor members (C11_blank_text_same_verdict, any event list); oracle: 30 documents "
+    "with two violations must be refused naming the line of the FIRST, and the same documents without white space between elements on line 2.  "
     "Memory safety, termination and the located diagnostic of the real process are NOT "
     "proved: they are explored by running gama-local built with ASan+UBSan on grammar-derived, mutated and truncated inputs.")
 LEVEL_NOTE = (
@@ -724,6 +733,61 @@ def rule_docs():
                 ("cov-mat", f"{w} elements"), f"{w} covariance elements where {n} are needed")
     for name, ca, kids, n in clusters[2:]:
         add(f"<{name}> without cov-mat", docw([El(name, ca, kids())]), f"</{name}>", ("cov-mat", "<absent>"), "cov-mat required")
+    return out
+
+
+
+def first_violation_docs():
+    """next to C11_invalid_document_refused_located / C11_first_error_is_first_violation / C11_blank_text_same_verdict (round 9):
+    (a) documents with TWO violating elements in two different clusters, every ordered pair of the kinds below: the refusal
+        must name the line of the FIRST violating element (start tag of the element, closing tag of the cluster for dim / number
+        of covariance words / missing cov-mat);
+    (b) the one-violation documents of rule_docs() and the two-violation documents WITHOUT any white space between the elements
+        (everything on line 2 after the declaration): same verdict, line 2 — character data between elements is not part of
+        the document tree; and the valid base document compact: accepted.
+    Deterministic. -> list of (label, bytes, split, expect)"""
+    P = [El("point", [("id", "A"), ("x", "0"), ("y", "0"), ("z", "10")]), El("point", [("id", "B"), ("x", "100"), ("y", "0"), ("z", "12")]),
+         El("point", [("id", "C"), ("x", "0"), ("y", "100"), ("z", "14")])]
+
+    def docw(kids):
+        return El("gama-local", [("xmlns", XMLNS)], [El("network", [], [El("points-observations", [("direction-stdev", "10"),
+                  ("distance-stdev", "5")], [p.clone() for p in P] + kids)])])
+    dist = lambda to, val="100": El("distance", [("to", to), ("val", val)])
+    covm = lambda d, b, words: El("cov-mat", [("dim", str(d)), ("band", str(b))], text=" ".join(["4"] * words))
+    # (label, cluster builder, needle whose FIRST occurrence is the violating tag, reason)
+    V = [("required attribute to absent", lambda: El("obs", [("from", "A")], [dist("B"), El("distance", [("val", "7")])]),
+          '<distance val="7"', "required attribute to is absent"),
+         ("malformed number", lambda: El("obs", [("from", "B")], [dist("C"), dist("A", "1e")]), '<distance to="A" val="1e"',
+          "val=1e outside the float language"),
+         ("non-positive distance", lambda: El("obs", [("from", "C")], [dist("A", "-3")]), '<distance to="A" val="-3"', "val <= 0"),
+         ("dim differs", lambda: El("height-differences", [], [El("dh", [("from", "A"), ("to", "B"), ("val", "2")]), covm(2, 0, 2)]),
+          "</height-differences>", "dim 2 differs from the number of observations 1"),
+         ("covariance words", lambda: El("vectors", [], [El("vec", [("from", "A"), ("to", "B"), ("dx", "1"), ("dy", "2"), ("dz", "3")]),
+                                                        covm(3, 0, 2)]), "</vectors>", "2 covariance elements where 3 are needed"),
+         ("cov-mat required", lambda: El("coordinates", [], [El("point", [("id", "A"), ("x", "1"), ("y", "2")])]), "</coordinates>",
+          "cov-mat required")]
+    out = []
+    pairs = []
+    for i, (la, ba, na, ra) in enumerate(V):
+        for j, (lb, bb, nb, rb) in enumerate(V):
+            if i != j:
+                pairs.append((f"first violation: {la} THEN {lb}", docw([ba(), bb()]), na, ra))
+    for label, root, needle, reason in pairs:
+        text = doc_text(root)
+        pos = text.find(needle)
+        if pos < 0:
+            continue
+        out.append((label, text.encode("utf-8"), -1, ("refuse", text.count("\n", 0, pos) + 1, (needle, "first of two"), reason)))
+        compact = '<?xml version="1.0" ?>\n' + ser(root, nl="")
+        out.append((label + " (no white space between elements)", compact.encode("utf-8"), -1,
+                    ("refuse", 2, (needle, "first of two"), reason)))
+    for la, ba, na, ra in V:
+        compact = '<?xml version="1.0" ?>\n' + ser(docw([ba()]), nl="")
+        out.append((f"one violation, no white space between elements: {la}", compact.encode("utf-8"), -1, ("refuse", 2, (na, "compact"), ra)))
+    ok = docw([El("obs", [("from", "A")], [dist("B"), dist("C"), El("cov-mat", [("dim", "2"), ("band", "1")], text="4 1 4")]),
+               El("height-differences", [], [El("dh", [("from", "A"), ("to", "B"), ("val", "2"), ("stdev", "1")])])])
+    out.append(("valid document, no white space between elements", ('<?xml version="1.0" ?>\n' + ser(ok, nl="")).encode("utf-8"), -1, "accept"))
+    out.append(("valid document, pretty-printed", doc_text(ok).encode("utf-8"), -1, "accept"))
     return out
 
 
@@ -1545,6 +1609,9 @@ def _gkf_streams(ctx, corr, exe):
     rd = rule_docs()
     docs += rd
     corr.count("rule_docs", len(rd))
+    fv = first_violation_docs()
+    docs += fv
+    corr.count("first_violation_docs", len(fv))
     run_docs(ctx, corr, exe, docs, "events")
     ctx.log(f"event correspondence: {len(docs)} documents ({len(vd)} with attribute values from the literal languages and their complements)")
     n = run_literals(ctx, corr, exe)
